@@ -1,6 +1,8 @@
 package gen
 
 import (
+	"strings"
+	"verifsim/spec"
 	"verifsim/world"
 )
 
@@ -110,6 +112,25 @@ func (g *Gen) Next() world.Event {
 				s.BuiltIn["ESDTFutureOperation"] = uint64(1 + g.R.Intn(1000))
 				s.Base["FuturePerByte"] = uint64(g.R.Intn(3)) // may even be zero: it is not an entry of this library
 			}
+			if g.R.Intn(7) == 0 {
+				// told to function objects directly (all, or a few), not through the factory
+				ev := world.Event{N: n, K: "sched", Shard: sh, Sched: &s, Probe: "direct"}
+				if g.R.Intn(3) != 0 {
+					k := 1 + g.R.Intn(3)
+					var names []string
+					for i := 0; i < k; i++ {
+						names = append(names, spec.AllFunctions[g.R.Intn(len(spec.AllFunctions))])
+					}
+					ev.ID = strings.Join(names, ",")
+				}
+				return ev
+			}
+			if g.R.Intn(7) == 0 {
+				// the schedule in force, announced again (nothing may change; in particular a function
+				// object that was told another schedule directly is priced by this one again)
+				cur := w.Nodes[sh].Sched.Clone()
+				return world.Event{N: n, K: "sched", Shard: sh, Sched: &cur}
+			}
 			if g.chance("p:sched-invalid") {
 				switch g.R.Intn(4) {
 				case 0:
@@ -180,6 +201,9 @@ func (g *Gen) wrap(ev world.Event) world.Event {
 	if g.chance("p:fault") {
 		kind := []int{world.DepTrieWrite, world.DepLoadAccount, world.DepSaveAccount, world.DepMarshal, world.DepUnmarshal, world.DepIsPayable}[g.R.Intn(6)]
 		ev.Fault = []int{kind, 1 + g.R.Intn(3)}
+		if (kind == world.DepLoadAccount || kind == world.DepIsPayable) && g.R.Intn(3) == 0 {
+			ev.Fault = append(ev.Fault, 1)
+		}
 	}
 	return ev
 }
